@@ -39,7 +39,8 @@ partial def load (h : Heap) : Pipe.Val → Heap × Nat
 
 def dkeyName : DKey → String
   | .str s => s
-  | .int i => s!"Index({i})"
+  | .int i => s!"Index({i})"     -- (never arises here: `Pipe.Seg` has names and `Index` only)
+  | .idx i => s!"Index({i})"     -- an `Index` object stored as a dict key (Model/Tree.lean keeps key objects since wp-C18F)
   | .lit _ _ => "Literal(?)"
 
 partial def dump (h : Heap) (r : Nat) : Pipe.Val :=
